@@ -987,16 +987,109 @@ def c08(tier, replay=None):
                        'evolution_rows_after_each_run': [rr.get('post', {}).get('evo') for rr in runrecs]},
                       limit=5)
     _trace_rejections(report, 'C08', chosen, results)
+    nledger = _c08_ledger(report, tier, nontrivial)
     report.coverage['distinct_nontrivial'] = len(nontrivial)
     report.coverage['exhaustive'] = len(chosen) == ngen
     report.coverage['rule'] = (
-        'TLC explores Evolver.tla (2 apps sharing labels e1..en, partial upgrades, no-op re-runs, '
+        'Part 2 (Ledger.tla): upgrade runs interleaved with mark-evolution-applied [--all] and wipe-evolution '
+        '[--app-label] over two apps sharing labels; TLC checks ExecutedAtMostOnce, RecordedAtMostOnce, '
+        'RecordedNeverExecutedAgain, OnlyCompletedRunsRecord, FreshRecordsWithoutExecuting over every operation '
+        'sequence; %d sequences replayed through the real commands, the outcome of every run / command and the '
+        'django_evolution rows compared after every step.  Part 1: '
+        'TLC explores Evolver.tla (2 apps sharing labels e1..en, partial upgrades, no-op re-runs, ' % nledger +
         'failed runs, api and command drivers); %d of %d histories replayed; Evolution rows read as '
         'a bag after every run, applied_evolution signals counted per label across the history; '
         'traces validated by EvolverTrace (RecordedAtMostOnce, RecordedWithinVersions, '
         'RecordedOnlyWithTables after every event). Non-trivial = at least two runs.'
         % (len(chosen), ngen))
     return report.finish()
+
+
+def _c08_ledger(report, tier, nontrivial):
+    import random
+    from concurrent.futures import ThreadPoolExecutor
+    from .common import seed
+    from .engines import ledger as L
+    from .tlc import run_tlc, require_ok, write_cfg
+    maxops = 5 if tier == 'quick' else 6
+    cfg = write_cfg('MC_Ledger.cfg', '''
+SPECIFICATION Spec
+CONSTANTS
+  MaxVer = 2
+  MaxOps = %d
+  EmitRecords = TRUE
+CONSTRAINT Constraint
+INVARIANT ExecutedAtMostOnce
+INVARIANT RecordedAtMostOnce
+PROPERTY RecordedNeverExecutedAgain
+PROPERTY OnlyCompletedRunsRecord
+PROPERTY FreshRecordsWithoutExecuting
+''' % maxops)
+    res = require_ok(run_tlc('Ledger', cfg, workers=16, timeout=5000), 'Ledger.tla')
+    report.add_tlc('Ledger MaxVer=2 MaxOps=%d' % maxops, res.stats())
+    expected = {}
+    full = []
+    for r in res.records:
+        expected[L.key_of(r['hist'])] = r
+        if len(r['hist']) == maxops:
+            ops = [op['op'] for op in r['hist']]
+            # at least one run before and one run after a repair command
+            if 'run' in ops and any(o in ('mark', 'markall', 'wipe') for o in ops) and ops[-1] == 'run':
+                full.append(r)
+    rng = random.Random(seed() * 389 + 8)
+    rng.shuffle(full)
+    strata = {}
+    for r in full:
+        shape = tuple((op['op'], op.get('ok'), op.get('outcome'), op.get('scoped')) for op in r['hist'])
+        strata.setdefault(shape, []).append(r)
+    limit = 60 if tier == 'quick' else 700
+    chosen = []
+    while len(chosen) < limit and any(strata.values()):
+        for k in sorted(strata, key=repr):
+            if strata[k] and len(chosen) < limit:
+                chosen.append(strata[k].pop())
+    with ThreadPoolExecutor(16) as ex:
+        observations = list(ex.map(lambda r: L.replay(r, expected), chosen))
+
+    def bag(d):
+        if isinstance(d, list):
+            return {i + 1: c for i, c in enumerate(d) if c}
+        return {int(k): c for k, c in (d or {}).items() if c}
+    for rec, obs in zip(chosen, observations):
+        report.coverage['evaluations'] += 1
+        label = ' '.join('%s(%s)' % (op['op'], ','.join(str(op[k]) for k in ('app', 'v', 'label', 'scoped')
+                                                           if k in op)) for op in rec['hist'])
+        nontrivial.add('ledger:' + label)
+        for st in obs['steps']:
+            report.coverage['traces_validated_against_impl'] += 1
+            exp = st['expected']
+            if exp is None:
+                continue
+            eop = exp['hist'][-1]
+            detail = {'history': label, 'step': st['index'], 'operation': st['op'],
+                      'observed': {k: st.get(k) for k in ('outcome', 'ok', 'executed', 'rows', 'error')},
+                      'expected_rows': exp['rec'], 'expected_op': eop}
+            fp = {'part': 'ledger', 'op': st['op']['op']}
+            if st['op']['op'] == 'run':
+                if st['outcome'] != eop['outcome']:
+                    report.fail(dict(fp, **{'class': 'run-outcome-differs', 'observed': st['outcome'],
+                                            'expected': eop['outcome']}), detail)
+                    break
+                want = {a: sorted(v) for a, v in eop['executed'].items()}
+                if st['executed'] != want:
+                    report.fail(dict(fp, **{'class': 'executed-labels-differ'}), detail)
+            elif st['ok'] != eop['ok']:
+                report.fail(dict(fp, **{'class': 'command-outcome-differs', 'expected_ok': eop['ok']}), detail)
+                break
+            rows = {a: bag(exp['rec'][a]) for a in ('a1', 'a2')}
+            if {a: {k: v for k, v in st['rows'][a].items() if v} for a in st['rows']} != rows:
+                report.fail(dict(fp, **{'class': 'evolution-rows-differ',
+                                        'duplicates': any(v > 1 for a in st['rows'] for v in st['rows'][a].values())}),
+                            detail)
+                break
+            if any(v > 1 for a in st['execs'] for v in st['execs'][a].values()):
+                report.fail(dict(fp, **{'class': 'evolution-executed-twice'}), detail)
+    return len(chosen)
 
 
 REGISTRY.update({'C17': c17, 'C08': c08})
